@@ -533,6 +533,11 @@ class DataFormat(object):
                 check_distinct(KEY_ESCAPE_CHARACTER, KEY_LINE_DELIMITER)
             check_distinct(KEY_ESCAPE_CHARACTER, KEY_ITEM_DELIMITER)
             check_distinct(KEY_ITEM_DELIMITER, KEY_LINE_DELIMITER)
+            if self.item_delimiter in ("\n", "\r"):
+                raise errors.InterfaceError(
+                    "'%s' is %s but must be different from the characters used as line delimiter"
+                    % (KEY_ITEM_DELIMITER, _compat.text_repr(self.item_delimiter))
+                )
             check_distinct(KEY_ITEM_DELIMITER, KEY_QUOTE_CHARACTER)
             check_distinct(KEY_LINE_DELIMITER, KEY_QUOTE_CHARACTER)
         self._is_valid = True
